@@ -558,6 +558,11 @@ func (n *network) GetConnection(name gen.Atom) (gen.Connection, error) {
 			for _, route := range nr {
 				nroute := gen.NetworkRoute{
 					Route:              route,
+					Cookie:             sroute.Cookie,
+					Cert:               sroute.Cert,
+					Flags:              sroute.Flags,
+					AtomMapping:        sroute.AtomMapping,
+					LogLevel:           sroute.LogLevel,
 					InsecureSkipVerify: n.skipverify,
 				}
 				if nroute.Route.TLS && nroute.Cert == nil {
